@@ -368,6 +368,14 @@ func VerifC12_ChannelUpdate() {
 		OpPositions:     map[string]*meta.PositionInfo{chA: c12Pos("oA"), chB: c12Pos("oB")},
 		TargetPositions: map[string]*meta.PositionInfo{"ta": c12Pos("tA"), "tb": c12Pos("tB")},
 	}
+	// a channel that only ever acknowledged tick packs has a position but no op position
+	// (and a record written by the create-collection event the other way round)
+	switch vChoice("missingEntryOfChannelA", 3) {
+	case 1:
+		delete(stored.OpPositions, chA)
+	case 2:
+		delete(stored.Positions, chA)
+	}
 	if vBool("freezeFirst") {
 		vAssert(st.taskCollectionPositionStore.Put(ctx, stored, nil) == nil, "C12.seed")
 		vAssert(UpdateDropStateTaskCollectionPosition(st.taskCollectionPositionStore, task, coll) == nil, "C12.drop-state-ok")
